@@ -151,6 +151,9 @@ func (t *HTTPTarget) Reset() {
 
 func (t *HTTPTarget) Close() { _ = t.srv.Close() }
 
+// SelfSignedCert returns a fresh self-signed certificate for 127.0.0.1 / localhost.
+func SelfSignedCert() (tls.Certificate, error) { return selfSigned() }
+
 func selfSigned() (tls.Certificate, error) {
 	key, err := ecdsa.GenerateKey(elliptic.P256(), rand.Reader)
 	if err != nil {
